@@ -78,6 +78,22 @@ def cut_tails(lay, body_sample=None):
     return ["cut/%s/%d" % (lay, c) for c in list(range(1, h)) + list(body)]
 EXIT_RC = {"0": 0, "1": 1, "kill": -9}
 
+# A request whose sending does NOT reach the wire is outstanding all the same (the caller holds its future):
+#   ["U", kind]    params that JSON cannot represent (nothing is written, the server never counts it)
+#   "before": b    b requests issued before start_io, i.e. before a transport exists (futures 0..b-1)
+# (requests issued after the pipe broke are the "R" messages after the k-th, esp. with "pad")
+UNSENT = ("set", "object", "key", "nested")
+FUT_MSGS = "RAELBU"             # message kinds that hand a future to the caller
+APIS = ("async", "sync", "cb")  # send_request_async / send_request / send_request with a callback
+
+
+def unsent_value(kind):
+    return {"set": {1, 2, 3}, "object": object(), "key": {(1, 2): 3}, "nested": [{"deep": [object()]}]}[kind]
+
+
+def nfut(c):
+    return c.get("before", 0) + sum(1 for m in c["msgs"] if m[0] in FUT_MSGS)
+
 
 # ------------------------------------------------------------------------------------------
 # implementation side (runs inside the worker process)
@@ -142,7 +158,7 @@ async def _run_case(case):
     class Client(base):
         async def server_exit(self, server):
             # what the hook sees when it starts: were the requests it could know of settled?
-            seen = all(f.done() for f in cfuts) if case.get("api") == "sync" else None
+            seen = all(f.done() for f in cfuts) if case.get("api") in ("sync", "cb") else None
             hook_log.append([server.returncode, seen])
             hook_entered.set()
             try:
@@ -170,7 +186,7 @@ async def _run_case(case):
     answers = {}
     n = 0
     for m in msgs:
-        if m[0] == "C":
+        if m[0] in ("C", "U"):      # (an unsent request is not a message the server receives)
             continue
         n += 1
         if m[0] == "A":
@@ -199,7 +215,30 @@ async def _run_case(case):
 
     obs = {"notes": []}
     t0 = time.monotonic()
+    cb_log = []
+
+    def request(m):
+        """issue one request through the API shape of the case; the future is in the caller's hands"""
+        mid = ids[len(futs)] if len(futs) < len(ids) else None     # caller-chosen id, or uuid
+        p = params(len(futs))
+        if m[0] == "U":             # params that cannot be turned into JSON: nothing reaches the wire
+            p = {"n": len(futs), "bad": unsent_value(m[1])}
+        api = case.get("api")
+        if api in ("sync", "cb"):
+            if api == "cb":
+                cf = client.protocol.send_request(method, p, callback=lambda fut: cb_log.append(1), msg_id=mid)
+            else:
+                cf = client.protocol.send_request(method, p, msg_id=mid)
+            cfuts.append(cf)
+            f = asyncio.wrap_future(cf)
+        else:
+            f = client.protocol.send_request_async(method, p, msg_id=mid)
+        futs.append(f)
+        return f
+
     try:
+        for _ in range(case.get("before", 0)):      # no transport yet
+            request(["R"])
         await client.start_io(sys.executable, SERVER, json.dumps(script))
         # the conversation; nothing below yields to the loop except awaiting a scripted reply
         for m in msgs:
@@ -208,14 +247,7 @@ async def _run_case(case):
             elif m[0] == "C":                   # the caller cancels request number m[1]
                 futs[m[1]].cancel()
             else:
-                mid = ids[len(futs)] if len(futs) < len(ids) else None     # caller-chosen id, or uuid
-                if case.get("api") == "sync":
-                    cf = client.protocol.send_request(method, params(len(futs)), msg_id=mid)
-                    cfuts.append(cf)
-                    f = asyncio.wrap_future(cf)
-                else:
-                    f = client.protocol.send_request_async(method, params(len(futs)), msg_id=mid)
-                futs.append(f)
+                f = request(m)
                 if m[0] in ("A", "E"):
                     try:
                         await asyncio.wait_for(asyncio.shield(f), AWAIT_TIMEOUT)
@@ -406,12 +438,20 @@ import core  # noqa: E402
 
 def valid(c):
     """A case the scripted server and the deterministic mapping to events can handle."""
-    n, nf, dead = 0, 0, c["k"] == 0
+    if c.get("before", 0) not in (0, 1, 2, 3):
+        return False
+    n, nf, dead = 0, c.get("before", 0), c["k"] == 0
     for m in c["msgs"]:
         t = m[0]
         if t == "C":
             if not (0 <= m[1] < nf):
                 return False
+            continue
+        if t == "U":
+            # (a raising report_server_error override raises out of send_request: no future is handed out)
+            if len(m) != 2 or m[1] not in UNSENT or c.get("errhook") == "raise":
+                return False
+            nf += 1
             continue
         if t not in ("R", "N", "A", "E", "L", "B"):
             return False
@@ -432,7 +472,7 @@ def valid(c):
         return False                  # caller-chosen ids must be distinct (7 and "7" are)
     return (dead and c["exit"] in EXIT_RC and is_tail(c.get("tail", "none"))
             and c.get("hook", "ok") in HOOKS and c.get("client", "plain") in ("plain", "lsp")
-            and c.get("api", "async") in ("async", "sync") and c.get("srvreq", 0) in (0, 1, 2)
+            and c.get("api", "async") in APIS and c.get("srvreq", 0) in (0, 1, 2)
             and c.get("stop_at", "after") in ("after", "early", "dead", "hook")
             and c.get("pad", 0) in (0, 16, 48))
 
@@ -440,7 +480,7 @@ def valid(c):
 def events(c):
     """The conversation as model events (everything the caller and the server do before the
     caller yields to wait for the exit to be noticed)."""
-    evs = []
+    evs = [[0] for _ in range(c.get("before", 0))]
     for j in range(c.get("srvreq", 0)):
         evs.append([2, 4, j])
     for p in c.get("pre", []):
@@ -448,11 +488,15 @@ def events(c):
     rc, tc = EXIT_RC[c["exit"]], tail_class(c.get("tail", "none"))
     if c["k"] == 0:
         evs.append([3, rc, tc])
-    n, nf = 0, 0
+    n, nf = 0, c.get("before", 0)
     for m in c["msgs"]:
         t = m[0]
         if t == "C":
             evs.append([1, m[1]])
+            continue
+        if t == "U":
+            evs.append([0])
+            nf += 1
             continue
         n += 1
         if t == "N":
@@ -475,7 +519,7 @@ def events(c):
 
 def outstanding(c):
     """Requests neither answered-and-read nor cancelled when the server dies."""
-    st = []
+    st = ["R"] * c.get("before", 0)
     n = 0
     for m in c["msgs"]:
         if m[0] == "C":
@@ -484,7 +528,7 @@ def outstanding(c):
             continue
         n += 1
         if m[0] != "N":
-            st.append("R" if m[0] in ("R", "L", "B") else "A")
+            st.append("R" if m[0] in ("R", "L", "B", "U") else "A")
     return sum(1 for x in st if x == "R")
 
 
@@ -586,7 +630,7 @@ class C17(core.Property):
     rule = ("a case is one scripted server process (exit after the k-th received message with status 0 / 1 / "
             "SIGKILL, optional partial header / partial body / junk tail, optional complete bad frames) driven "
             "by the real JsonRPCClient.start_io (plain or typed BaseLanguageClient) with a conversation of answered, "
-            "unanswered, late-answered, undecodably answered and cancelled requests, 0-2 coroutine handlers of server "
+            "unanswered, late-answered, undecodably answered, cancelled and never-sent (params JSON cannot represent; issued before the transport exists) requests through send_request_async / send_request / send_request with callback, 0-2 coroutine handlers of server "
             "requests still running at the exit (uuid or caller-chosen int / str "
             "ids) and notifications, server_exit hook returning / raising / sleeping / awaiting the requests, stop() called before the exit / once the process is dead / while the hook is in flight / after it; non-trivial = at least one request outstanding at the exit "
             "or a partial frame written")
@@ -641,7 +685,7 @@ class C17(core.Property):
     def _decorate(self, rng, c):
         """caller-chosen request ids of both JSON types, what the server_exit hook does, which API
         handed out the futures, plain or typed client"""
-        nf = sum(1 for m in c["msgs"] if m[0] in "RAELB")
+        nf = nfut(c)
         r = rng.random()
         if nf and r < 0.5:
             pool = rng.sample(self.ID_POOL, min(nf, len(self.ID_POOL)))
@@ -653,7 +697,7 @@ class C17(core.Property):
         if nf >= 2 and rng.random() < 0.2:
             c["pad"] = rng.choice([16, 48])     # more outbound data than the server's stdin pipe holds
         if rng.random() < 0.5:
-            c["api"] = "sync"
+            c["api"] = rng.choice(["sync", "sync", "cb"])
         if rng.random() < 0.3:
             c["client"] = "lsp"
             c["msgs"] = [["B", "badresult"] if (m[0] == "B" and rng.random() < 0.5) else m for m in c["msgs"]]
@@ -706,6 +750,28 @@ class C17(core.Property):
                                    [(n, k) for n in (2, 3, 4, 8) for k in range(0, n + 1)]):
             cases.append({"msgs": [["R"]] * n, "k": k, "exit": exits[j % 3], "tail": tails[j % len(tails)],
                           "pad": 48, "hook": ["ok", "slow", "await"][j % 3]})
+        # (1d) requests outstanding at the exit whose sending did not reach the wire: params JSON cannot
+        # represent (at every position relative to the crash point), requests issued before a transport
+        # exists, through each of the three requester shapes, plain and typed client
+        j = 0
+        for api in APIS:
+            for kind in (UNSENT[:2] if chk.quick else UNSENT):
+                for n, k, at in ([(0, 0, 0), (2, 1, 0), (2, 2, 1), (3, 1, 3)] if chk.quick else
+                                 [(n, k, at) for n in (0, 1, 2, 3) for k in range(n + 1) for at in range(n + 1)]):
+                    msgs = [["R"]] * n
+                    c = {"msgs": msgs[:at] + [["U", kind]] + msgs[at:], "k": k, "exit": exits[j % 3],
+                         "tail": tails[j % len(tails)], "api": api}
+                    if j % 4 == 3:
+                        c["client"] = "lsp"
+                    if j % 5 == 4:
+                        c["hook"] = "await"
+                    cases.append(c)
+                    j += 1
+            for b, n, k in ([(1, 0, 0), (2, 2, 1)] if chk.quick else
+                            [(b, n, k) for b in (1, 2, 3) for n in (0, 1, 2) for k in range(n + 1)]):
+                cases.append({"msgs": [["R"]] * n, "k": k, "exit": exits[j % 3], "tail": tails[j % len(tails)],
+                              "api": api, "before": b})
+                j += 1
         # the remaining generated conversations end in a partial frame at a random offset now and then
         tails = tails + [rng.choice(cut_tails(rng.choice(list(CUT_HEADERS)))) for _ in range(4)]
         # (2) mixed conversations: answered / error-answered / late-answered / cancelled / notifications
@@ -723,6 +789,15 @@ class C17(core.Property):
                 c["post"] = rng.randint(1, 2)
             elif rng.random() < 0.45:
                 c["stop_at"] = rng.choice(["early", "dead", "hook", "hook"])
+            if c.get("errhook") != "raise" and rng.random() < 0.3:
+                for _ in range(rng.randint(1, 2)):      # unsent requests anywhere in the conversation
+                    # (not between a cancellation and the request it names)
+                    at = rng.choice([i for i in range(len(c["msgs"]) + 1)
+                                     if not any(m[0] == "C" for m in c["msgs"][i:])] or [len(c["msgs"])])
+                    c["msgs"] = c["msgs"][:at] + [["U", rng.choice(UNSENT)]] + c["msgs"][at:]
+            if rng.random() < 0.1:
+                c["before"] = rng.randint(1, 2)
+                c["msgs"] = [["C", m[1] + c["before"]] if m[0] == "C" else m for m in c["msgs"]]
             self._decorate(rng, c)
             cases.append(c)
         out = []
@@ -789,7 +864,7 @@ class C17(core.Property):
                     o = {"hang": True}
                 if "t_stopped" in o:
                     timing.append((o["t_stopped"], o["t_total"]))
-                nf = sum(1 for m in c["msgs"] if m[0] in "RAELB")
+                nf = nfut(c)
                 res[i + j * nproc] = canon_impl(o, nf)
         self._timing = timing
         return res
@@ -842,12 +917,12 @@ class C17(core.Property):
         t = _Toks(toks)
         guard = bool(t.int())
         exps = t.keyed(t.expect)
-        nf = sum(1 for m in c["msgs"] if m[0] in "RAELB")
+        nf = nfut(c)
         M = {}
         for order in ("A", "B"):
             o1, o2 = t.obs(), t.obs()
             ok = bool(t.int())
-            if c.get("api") != "sync":      # the underlying futures are not in the caller's hands
+            if c.get("api") not in ("sync", "cb"):      # the underlying futures are not in the caller's hands
                 for o in (o1, o2):
                     o["hook"] = [[rc, None] for rc, _ in o["hook"]]
             M[order] = {"futs": o1["futs"], "hook": o1["hook"], "stopped": o1["stopped"], "stop": o2["stop"],
@@ -903,8 +978,8 @@ class C17(core.Property):
             if m[0] == "C":
                 d["msgs"] = msgs[:i] + msgs[i + 1:]
                 return d
-            pos = sum(1 for x in msgs[:i + 1] if x[0] != "C")
-            fidx = sum(1 for x in msgs[:i] if x[0] in "RAELB")
+            pos = sum(1 for x in msgs[:i + 1] if x[0] not in ("C", "U"))
+            fidx = c.get("before", 0) + sum(1 for x in msgs[:i] if x[0] in FUT_MSGS)
             new = []
             for j, x in enumerate(msgs):
                 if j == i:
@@ -918,7 +993,7 @@ class C17(core.Property):
             d["msgs"] = new
             if m[0] != "N" and c.get("ids"):
                 d["ids"] = c["ids"][:fidx] + c["ids"][fidx + 1:]
-            if pos <= c["k"]:
+            if pos <= c["k"] and m[0] != "U":
                 d["k"] = c["k"] - 1
             return d
         for i in range(len(c["msgs"]) - 1, -1, -1):
@@ -932,6 +1007,12 @@ class C17(core.Property):
                 d = dict(c); d.pop(key)
                 if valid(d):
                     yield d
+        if c.get("before") and not any(m[0] == "C" for m in c["msgs"]):
+            d = dict(c); d["before"] = c["before"] - 1
+            if c.get("ids"):
+                d["ids"] = c["ids"][1:]
+            if valid(d):
+                yield d
         ids = c.get("ids") or []
         for j, x in enumerate(ids):
             if x is not None:
@@ -960,6 +1041,11 @@ class C17(core.Property):
                 for e in ("0", "1", "kill"):
                     for t in TAILS:
                         cases.append({"msgs": [["R"]] * n, "k": k, "exit": e, "tail": t})
+        for api in APIS:
+            for n in (0, 1, 2):
+                for k in range(n + 1):
+                    cases.append({"msgs": [["R"]] * n + [["U", "set"]], "k": k, "exit": "0", "tail": "none", "api": api})
+                    cases.append({"msgs": [["R"]] * n, "k": k, "exit": "0", "tail": "none", "api": api, "before": 1})
         try:
             res = core.evaluate(self, chk, cases)
         except Exception:
@@ -1027,7 +1113,7 @@ class C17(core.Property):
                         "outstanding:%d" % min(outstanding(c), 9),
                         "hook:" + c.get("hook", "ok"), "errhook:" + c.get("errhook", "ok"),
                         "pre:%d" % len(c.get("pre", [])), "post:%d" % c.get("post", 0),
-                        "api:" + c.get("api", "async"), "client:" + c.get("client", "plain"),
+                        "api:" + c.get("api", "async"), "before:%d" % c.get("before", 0), "client:" + c.get("client", "plain"),
                         "srvreq:%d" % c.get("srvreq", 0), "pad:%d" % c.get("pad", 0),
                         "ids:" + ("chosen" if any(i is not None for i in c.get("ids") or []) else "uuid"),
                         "stop_at:" + (c.get("stop_at") or ("early" if c.get("early_stop") else "after"))):
